@@ -63,7 +63,7 @@ fn strategy(ctx: &Ctx) -> BoxedStrategy<Case> {
                 Just(dst_cfg),
                 tree(p),
                 prop::collection::vec(
-                    hop(p, true).prop_filter("no stale-handle op here", |o| !matches!(o, HOp::PruneThenStaleBackup { .. })),
+                    hop(p, true).prop_filter("no stale-handle op here", |o| !matches!(o, HOp::PruneThenStaleBackup { .. } | HOp::PrunesThenStaleBackup { .. })),
                     1..=len,
                 ),
                 prop::collection::vec(
